@@ -709,7 +709,12 @@ def stmt_kind(st):
     if st[0] == 'def' and isinstance(st[3], tuple):
         return 'def-string-variable'
     if st[0] == 'ref':
-        return 'ref-' + '+'.join(sorted(set(scope.name_class(n) + ('' if q is None else '-qualified') for n, q in st[1])))
+        def rc(n):
+            c = scope.name_class(n)
+            if c == 'nameless-def':
+                c = 'nameless-back' if n == '-' else 'nameless-fwd'
+            return c
+        return 'ref-' + '+'.join(sorted(set(rc(n) + ('' if q is None else '-qualified') for n, q in st[1])))
     return st[0]
 
 
@@ -832,7 +837,11 @@ def run_case(case, ctx):
     rng = ctx.rng
     cs, cpu = case['cs'], case['cpu']
     info = CPUS[cpu]
-    prog, text, lines, res, fault, single = make_program(rng, case)
+    try:
+        prog, text, lines, res, fault, single = make_program(rng, case)
+    except RuntimeError as e:
+        out.inconc('generator: %s' % e)
+        return
     ctx.write('g.asm', text)
     args = ['-U'] if cs else []
     a = asl.assemble(ctx, 'g.asm', args, trace=True)
@@ -948,6 +957,8 @@ def run_case(case, ctx):
         out.sets['reference_kinds'].add(r.kind)
         if r.qual is not None:
             out.sets['qualifier_forms'].add(r.kind)
+        if len(r.name) > 30:
+            out.sets['long_symbol_name_lengths'].add(str(len(r.name)))
         via = r.sym.via or ('macro' if r.sym.scope else 'direct')
         dist = 0
         s = r.sect
